@@ -46,7 +46,6 @@ def small(name, freq, defs, npop=3, **kw):
 OBLIGATIONS = [
     small('secondly_restart_c2_p2', 7, ['RESTART', 'EXPECT_REFILLS'], npop=2, timeout=2400),
     small('daily_restart_c2_p2', 4, ['RESTART', 'EXPECT_REFILLS'], npop=2, timeout=2400),
-    small('daily_restart_c2_p2_kissat', 4, ['RESTART', 'EXPECT_REFILLS'], npop=2, timeout=2400, solver='kissat', tiers=('probe',)),
     small('daily_count_c2_p2', 4, ['WITH_COUNT'], npop=2, timeout=2400),
     small('secondly_restart_c2', 7, ['RESTART', 'EXPECT_REFILLS'], timeout=3400, tiers=T),
     small('hourly_restart_c2', 5, ['RESTART', 'EXPECT_REFILLS'], timeout=3400, tiers=T),
